@@ -273,6 +273,8 @@ func c20Script(r *vhlib.Run, ops []bitOp, enc *prefix.Encoder, dec *prefix.Decod
 func runC20(r *vhlib.Run) {
 	rng := r.Rng
 	c20Impl(r)
+	// prefix.Writer against its implementation-level model over scripted (also failing) sinks
+	runWBITW(r)
 	// exhaustive: alphabets up to 5 (thorough: 6) symbols with counts 0..4, every limit
 	maxN := 5
 	if !r.Quick() {
